@@ -6,13 +6,13 @@ CHECKS = {
  'C01': {
   'level': 'model_checking',
   'explanation': 'ExplicitTreeAut::CheckInclusion executed symbolically for each of the 8 implemented parameter selections (operands prepared as cli/operations.hh does: sanitisation, disjoint union, simulation of the matching direction) on every pair of automata drawn from the rule universes of the configuration, against an independent macro-state inclusion oracle; one query per (universe, selection).',
-  'bounds': {'quick': 'pairs (A,B) with |Q_A|+|Q_B| <= 4 states: 1+1 over {a/0,b/0,f/1}; 2+1, 1+2, 2+2 over {a/0,f/1}; 2+1, 1+2 over {a/0,g/2}; all rule subsets and final sets (8..16 free bits per query), all 8 selections (the upward+simulation selection on the two universes with a binary symbol only in the thorough tier)',
-             'thorough': 'as quick plus 2+2 over {a/0,b/0,f/1} and 1+2 / 2+1 over {a/0,f/1,g/2}'},
+  'bounds': {'quick': 'pairs (A,B) with |Q_A|+|Q_B| <= 4 states: 1+1 over {a/0,b/0,f/1}; 2+1, 1+2, 2+2 over {a/0,f/1}; 2+1, 1+2 over {a/0,g/2}; all rule subsets and final sets (8..16 free bits per query), all 8 selections; plus the triangular sub-universes (rules whose parent number is <= every child number, i.e. DAG-shaped automata with self loops) over 2+3 and 3+2 states and {a/0,f/1} (19 free bits) for the four selections without simulation (the upward+simulation selection on the two universes with a binary symbol only in the thorough tier)',
+             'thorough': 'as quick plus 2+2 over {a/0,b/0,f/1}, the upward+simulation selection on the binary universes, and the triangular 2+3 / 3+2 universes for all 8 selections (also with only the bigger operand restricted, 20 bits)'},
   'outside': 'more than 2 states per operand, rank > 2, more than 3 symbols, simulation relations other than the one the library computes',
   'harnesses': [
     {'name': 'incl', 'src': 'harness/C01/incl.cc', 'tus': TREE_INCL,
-     'configs': {'quick': c01_configs([(1, 1, [0, 0, 1]), (2, 1, [0, 1]), (1, 2, [0, 1]), (2, 2, [0, 1]), (2, 1, [0, 2]), (1, 2, [0, 2])]),
-                 'thorough': c01_configs([(1, 1, [0, 0, 1]), (2, 1, [0, 1]), (1, 2, [0, 1]), (2, 2, [0, 1]), (2, 1, [0, 2]), (1, 2, [0, 2]), (2, 2, [0, 0, 1])], heavy=True)},
+     'configs': {'quick': c01_configs([(1, 1, [0, 0, 1]), (2, 1, [0, 1]), (1, 2, [0, 1]), (2, 2, [0, 1]), (2, 1, [0, 2]), (1, 2, [0, 2])]) + c01_tri((0, 2, 4, 6)),
+                 'thorough': c01_configs([(1, 1, [0, 0, 1]), (2, 1, [0, 1]), (1, 2, [0, 1]), (2, 2, [0, 1]), (2, 1, [0, 2]), (1, 2, [0, 2]), (2, 2, [0, 0, 1])], heavy=True) + c01_tri(range(8), _heavy=1, _mem_gb=30, _time=2500) + c01_tri((0, 2, 4, 6), both=False, _heavy=1, _mem_gb=30, _time=2500)},
      'selftest_config': AB(1, 1, [0, 0, 1], SEL=2), 'selftests': ['VS_SELFTEST_1']},
   ],
  }
